@@ -192,4 +192,6 @@ def targets(ctx):
             return {"kind": kind, "us": us, "off": off, "pos": pos}
         return {"kind": kind, "us": draw(dur_us_strategy()), "pos": pos}
 
-    return [Target("conversions", ev, strategy=strat(), quick=1500, thorough=20000, time_quick=70)]
+    from . import _seq
+
+    return [Target("conversions", ev, strategy=strat(), quick=1500, thorough=20000, time_quick=70), _seq.target("C15")]
